@@ -97,6 +97,11 @@ class Sym:
                 else:
                     base = ('index', base, '[?]')
             return base
+        if not proj and p['local'] in self.fn.refmap():
+            dp = self.fn.ref_def_place(p['local'])
+            if dp is not None and any(isinstance(pr, dict) and 'index' in pr for pr in dp['proj']) and self.fn.const_local(next(pr['index'] for pr in dp['proj'] if isinstance(pr, dict) and 'index' in pr)) is None:
+                # a reference to a dynamically indexed element: keep the index expression
+                return self.place_at(dp, pos)
         loc = self.fn.loc(p)
         n = 0
         while len(loc) == 1 and loc[0] in self.fn.refmap() and n < 20:
